@@ -407,6 +407,10 @@ func (e Engine) Execute(sc *core.Scenario) *core.Result {
 		return execC17(sc)
 	case "C18":
 		return execC18(sc)
+	case "C11":
+		return execC11(sc)
+	case "C12":
+		return execC12(sc)
 	}
 	return &core.Result{Harness: "concur: no executor for " + sc.Property}
 }
@@ -417,13 +421,17 @@ func (e Engine) Generate(prop string, verifSeed int64, tier string, idx int) *co
 		return genC17(verifSeed, tier, idx)
 	case "C18":
 		return genC18(verifSeed, tier, idx)
+	case "C11":
+		return genC11(verifSeed, tier, idx)
+	case "C12":
+		return genC12(verifSeed, tier, idx)
 	}
 	return nil
 }
 
 func (e Engine) Runs(prop, tier string) int {
-	q := map[string]int{"C17": 2500, "C18": 2000, "C11": 4000, "C12": 4000, "C07": 1500}
-	t := map[string]int{"C17": 100000, "C18": 80000, "C11": 200000, "C12": 200000, "C07": 60000}
+	q := map[string]int{"C17": 2500, "C18": 2000, "C11": 4000, "C12": 1500, "C07": 1500}
+	t := map[string]int{"C17": 100000, "C18": 80000, "C11": 200000, "C12": 60000, "C07": 60000}
 	if tier == "thorough" {
 		return t[prop]
 	}
@@ -451,6 +459,13 @@ func (e Engine) Describe(prop string) core.Description {
 	case "C18":
 		d.Rule = "seeded histories of 3-12 constructor calls (every subset of the functional options, values unique per call), observations of every live instance, writes and parses with and without per-call options, over 1-3 tasks, one fresh process per history; reference model: defaults observed from a fresh process (+) the instance's own options; a case is non-trivial when an instance was observed after a later constructor call"
 		d.Assumptions = append(d.Assumptions, "UnserializeOptions and SerializeOptions are empty structs: only nil versus set is observable for them")
+	case "C11":
+		d.Rule = "one shared document from a schema-driven generator (every field of every message type populated or empty by PRNG decision, unsorted roots and edge targets, nested persons) and 1-4 tasks x 1-4 operations from an explicit table of read-only/value-returning operations (second operands: the shared list, a private clone, a private different list); per operation an order-sensitive field-by-field snapshot of every operand before and after; race detector over all interleavings chosen; a case is distinct by (document, operations, interleaving) and non-trivial when single-task (exact attribution of a mutation) or when a context switch happened inside an operation"
+		d.Assumptions = append(d.Assumptions, "a method counts as read-only only if it is in the explicit table; exported methods of pkg/sbom that are neither in the table nor in the mutator list are reported in the evidence counters as not exercised")
+	case "C12":
+		d.Rule = "a heap of live values (nodes, edges, persons, external references, node lists from the schema-driven generator); seeded histories of Copy (all five kinds), Union, Intersect with operands drawn from the heap, and mutate(v, path) where path ranges over every field of every message type at every nesting level (enumerated by reflection: set scalars, overwrite list elements, append, set/overwrite/delete map entries); two shapes: single-task histories of 3-15 steps with the model compared after every step, and two-task runs in which one task mutates every path of derived values while the other reads their sources under the race detector; non-trivial when at least one derived value exists and at least one mutation was applied"
+		d.Assumptions = append(d.Assumptions, "the reference model of a slot is proto.Clone of what the implementation returned; union and intersection are not re-implemented (that is C09/C10)",
+			"a fresh copy must satisfy Equal where the type has one (Node, Edge, NodeList) and dump equality otherwise (Person, ExternalReference)")
 	}
 	return d
 }
